@@ -469,6 +469,11 @@ pub async fn clear_buffered_meta_loop(
 
                         tx.commit()?;
 
+                        #[cfg(feature = "verif-hooks")]
+                        klukai_types::verif::event("cbm.after_commit", || {
+                            format!("{self_actor_id} {actor_id} {}..={}", versions.start(), versions.end())
+                        });
+
                         Ok::<_, rusqlite::Error>((buf_count, seq_count))
                     })
                 };
@@ -669,6 +674,9 @@ pub async fn process_fully_buffered_changes(
                 actor_id: Some(actor_id),
                 version: Some(version),
             })?;
+
+            #[cfg(feature = "verif-hooks")]
+            klukai_types::verif::point("pfb.after_commit");
 
             bookedw.commit_snapshot(snap);
 
@@ -964,6 +972,9 @@ pub async fn process_multiple_changes(
             }
         })?;
 
+        #[cfg(feature = "verif-hooks")]
+        klukai_types::verif::point("pmc.after_commit");
+
         let elapsed = sub_start.elapsed();
         if elapsed >= PROCESSING_WARN_THRESHOLD {
             warn!("process_multiple_changes: commiting transaction took too long - {elapsed:?}");
@@ -1009,6 +1020,10 @@ pub async fn process_multiple_changes(
                         // if we have no gaps, then we can schedule applying all these changes.
                         debug!(%actor_id, %version, "we now have all versions, notifying for background jobber to insert buffered changes! seqs: {seqs:?}, expected full seqs: {full_seqs_range:?}");
                         let tx_apply = agent.tx_apply().clone();
+                        #[cfg(feature = "verif-hooks")]
+                        klukai_types::verif::event("pmc.apply_trigger", || {
+                            format!("{} {actor_id} {version}", agent.actor_id())
+                        });
                         tokio::spawn(async move {
                             if let Err(e) = tx_apply.send((actor_id, version)).await {
                                 error!(
@@ -1161,6 +1176,19 @@ pub fn process_incomplete_version<T: Deref<Target = rusqlite::Connection> + Comm
             |row| Ok(row.get(0)?..=row.get(1)?),
         )
         .and_then(|rows| rows.collect::<rusqlite::Result<Vec<_>>>())?;
+
+    #[cfg(feature = "verif-hooks")]
+    klukai_types::verif::event("piv.merge", || {
+        format!(
+            "{actor_id} {version} new={}..={} deleted={:?}",
+            seqs.start(),
+            seqs.end(),
+            deleted
+                .iter()
+                .map(|r| (r.start().0, r.end().0))
+                .collect::<Vec<_>>()
+        )
+    });
 
     // re-compute the ranges
     let mut new_ranges = RangeInclusiveSet::from_iter(deleted);
